@@ -57,6 +57,14 @@ Example C18_purge_per_event :
   = [ONone; ONone; ONone; ONone; ONone; ONone; ONone; ONone; OIter [(1, 1); (3, 3)]].
 Proof. vm_compute. reflexivity. Qed.
 
+(** ... and the refusal of purged offsets does need the monotone clock (finding F31): event 2,
+    stamped in the past, is purged from between events 1 and 3; a seek to offset 2 is accepted
+    and the iteration silently resumes at event 3 *)
+Example C18_seek_into_a_hole_refuted :
+  brun bstate0 [BOpen 100; BSend 1; BBack 300; BSend 2; BAge 300; BSend 3; BOpen 100; BSeek 2; BIter]
+  = [ONone; ONone; ONone; ONone; ONone; ONone; ONone; OSeek SeekOk; OIter [(3, 3)]].
+Proof. vm_compute. reflexivity. Qed.
+
 Example C18_nonvacuous :
   brun bstate0 [BOpen 100; BSend 1; BSend 2; BAge 113; BSend 3; BOpen 100; BSeek 1; BSeek 3; BIter; BSend 4; BIter]
   = [ONone; ONone; ONone; ONone; ONone; ONone; OSeek SeekIndexError; OSeek SeekOk; OIter [(3, 3)]; ONone; OIter [(4, 4)]].
